@@ -1066,6 +1066,31 @@ r4_order.helper_aware = True
 
 r2_explicit.helper_aware = True
 
+def r6_own_tags(program, rep):
+    """The tag set of a new field is a set created by add_field itself on
+    every path (tags are later added to the sets of ancestors: a set shared
+    with the caller or with another field would spread them)."""
+    fn = program.get(BF + ".add_field")
+    T = Terms(fn)
+    cs = [c for c in ast.walk(fn) if isinstance(c, ast.Call) and
+          isinstance(c.func, ast.Attribute) and c.func.attr == "_Field"]
+    if len(cs) != 1 or len(cs[0].args) < 3:
+        raise AnalysisError("add_field: the creation of the field record")
+    n = T.cfg.node_containing(cs[0])
+    tt = T.term(cs[0].args[2], n)
+    alts = alternatives(tt)
+    fresh = bool(alts) and all(
+        a[0] == "new" and plain(a)[0] == "call" and
+        plain(a)[1] == ("global", "set") for a in alts)
+    rep.check(fresh, "C08-R6", qual(fn), "the field's tag set is created by "
+              "add_field on every path (a copy, never the caller's object)",
+              construct="own tag set", node=cs[0],
+              fail="on some path the new field keeps the very set object "
+                   "the caller passed as tags: tags propagated to one field "
+                   "also appear on every other field given that set, and "
+                   "the masks of those tags select unrelated fields")
+
+
 def check(program, rep):
     program.module("rig.bitfield")
     rep.guard(["C08-R1", "C08-R3", "C08-R4"], r1_scan, program, rep)
@@ -1075,6 +1100,7 @@ def check(program, rep):
     rep.guard("C08-R4", r4_children, program, rep)
     rep.guard("C08-R5", r5_widths, program, rep)
     rep.guard("C08-R6", r6_tags, program, rep)
+    rep.guard("C08-R6", r6_own_tags, program, rep)
     rep.floor("C08-R4", 5)
     return finish(rep, program, EXPLANATION, NOT_DECIDED,
                   trusted=["the engines' arithmetic normal forms (pow2)"])
